@@ -39,7 +39,18 @@ func c12(c *ctx) {
 		hist  []string
 		entry []int // entry rule per step (-1 = Parse() without argument)
 	}
-	us := []string{"uint16", "uint32", "uint64", "uint"}
+	us := []string{"uint8", "uint16", "uint32", "uint64", "uint"}
+	// an input "fits" U when every offset 0..len(runes) is a value of U (the end sentinel sits at index len(runes))
+	fits := func(u, in string) bool {
+		n := len([]rune(in))
+		switch u {
+		case "uint8":
+			return n <= 255
+		case "uint16":
+			return n <= 65535
+		}
+		return true
+	}
 	sizes := []int{0, 1, 1 << 15}
 	batch := 100
 	for lo := 0; lo < n; lo += batch {
@@ -112,6 +123,26 @@ func c12(c *ctx) {
 					}
 				}
 			}
+			// inputs at the uint8 limit: exactly 255 runes (fits: offsets 0..255), 254, and 256 (does not fit, left out there)
+			if i%4 != 0 {
+				unit := gram.Derive(r, g, "R0", alpha)
+				if len(unit) > 0 {
+					var b255 []rune
+					for len(b255) < 256 {
+						b255 = append(b255, unit...)
+					}
+					for _, ln := range []int{255, 254, 256} {
+						cand := string(b255[:ln])
+						if len(tractable(g, "R0", []string{cand})) == 1 {
+							h[r.Intn(len(h))] = cand
+							c.run.Count(fmt.Sprintf("histories_with_an_input_of_%d_runes", ln), 1)
+						}
+					}
+					if hl/2 < len(h) {
+						h[hl/2] = ""
+					}
+				}
+			}
 			// entry rules: mostly Parse(), in a third of the AST-mode grammars some steps start from another rule
 			ent := make([]int, len(h))
 			for k := range ent {
@@ -133,6 +164,7 @@ func c12(c *ctx) {
 			kind string // "fresh" or "hist"
 			k    int    // input index for fresh
 			cfg  string
+			idx  []int // for hist: the steps of hc.hist this history consists of (those whose input fits U)
 		}
 		var slots []slot
 		for _, hc := range hcs {
@@ -140,7 +172,7 @@ func c12(c *ctx) {
 			// baseline: fresh instance per input (uint32, default size, memo)
 			for k, in := range hc.hist {
 				reqs = append(reqs, corpus.Req{Pkg: pkg, Entry: hc.entry[k], In: []byte(in), Memo: true, U: "uint32"})
-				slots = append(slots, slot{hc, "fresh", k, "fresh/uint32/size0/memo"})
+				slots = append(slots, slot{hc, "fresh", k, "fresh/uint32/size0/memo", nil})
 			}
 			// fresh instances under the other U / Size (result must not depend on them)
 			for _, u := range us {
@@ -149,8 +181,14 @@ func c12(c *ctx) {
 						continue
 					}
 					k := r.Intn(len(hc.hist))
+					if !fits(u, hc.hist[k]) {
+						k = len(hc.hist) / 2 // the empty input fits everything
+					}
+					if u == "uint8" {
+						c.run.Max("longest_input_run_on_uint8_runes", len([]rune(hc.hist[k])))
+					}
 					reqs = append(reqs, corpus.Req{Pkg: pkg, Entry: hc.entry[k], In: []byte(hc.hist[k]), Memo: true, U: u, Size: sz})
-					slots = append(slots, slot{hc, "fresh", k, fmt.Sprintf("fresh/%s/size%d/memo", u, sz)})
+					slots = append(slots, slot{hc, "fresh", k, fmt.Sprintf("fresh/%s/size%d/memo", u, sz), nil})
 				}
 			}
 			// histories on one long-lived instance
@@ -158,11 +196,20 @@ func c12(c *ctx) {
 				for _, sz := range sizes {
 					for _, memo := range []bool{true, false} {
 						var hb [][]byte
-						for _, in := range hc.hist {
+						var idx, ent []int
+						for k, in := range hc.hist {
+							if !fits(u, in) {
+								continue // "as long as the input fits that type"
+							}
 							hb = append(hb, []byte(in))
+							idx = append(idx, k)
+							ent = append(ent, hc.entry[k])
 						}
-						reqs = append(reqs, corpus.Req{Pkg: pkg, Mode: "history", Entry: -1, Hist: hb, HistEntry: hc.entry, Memo: memo, U: u, Size: sz})
-						slots = append(slots, slot{hc, "hist", 0, fmt.Sprintf("reused/%s/size%d/memo=%v", u, sz, memo)})
+						if len(idx) < len(hc.hist) {
+							c.run.Count("history_steps_left_out_because_input_does_not_fit_U", len(hc.hist)-len(idx))
+						}
+						reqs = append(reqs, corpus.Req{Pkg: pkg, Mode: "history", Entry: -1, Hist: hb, HistEntry: ent, Memo: memo, U: u, Size: sz})
+						slots = append(slots, slot{hc, "hist", 0, fmt.Sprintf("reused/%s/size%d/memo=%v", u, sz, memo), idx})
 					}
 				}
 			}
@@ -227,29 +274,32 @@ func c12(c *ctx) {
 				c.run.Violate("crash:"+s.cfg+":"+hid, "reused parser crashed: "+res.Panic+firstLine(res.Fatal), map[string]any{"grammar": s.hc.cs.text, "history": s.hc.hist, "config": s.cfg})
 				continue
 			}
-			if len(res.Hist) != len(s.hc.hist) {
+			if len(res.Hist) != len(s.idx) {
 				c.run.Violate("short:"+s.cfg+":"+hid, "history result incomplete", map[string]any{"grammar": s.hc.cs.text, "history": s.hc.hist, "config": s.cfg})
 				continue
 			}
 			shrinkAfterSuccess, successAfterFailure := false, false
-			for k := range res.Hist {
+			prev := -1
+			for j := range res.Hist {
+				k := s.idx[j]
 				if !have[s.hc][k] {
 					continue
 				}
 				c.run.Eval(1)
-				if got := resKey(&res.Hist[k]); got != base[s.hc][k] {
+				if got := resKey(&res.Hist[j]); got != base[s.hc][k] {
 					c.run.Violate("leak:"+s.cfg+":"+hid, fmt.Sprintf("step %d of a history on one reused parser (%s) differs from a fresh parser on the same input", k, s.cfg),
 						map[string]any{"grammar": s.hc.cs.text, "history": s.hc.hist, "step": k, "input": s.hc.hist[k], "config": s.cfg, "reused": got, "fresh": base[s.hc][k]})
 					break
 				}
-				if k > 0 {
-					if baseOK[s.hc][k-1] && len(s.hc.hist[k]) < len(s.hc.hist[k-1]) {
+				if prev >= 0 {
+					if baseOK[s.hc][prev] && len(s.hc.hist[k]) < len(s.hc.hist[prev]) {
 						shrinkAfterSuccess = true
 					}
-					if !baseOK[s.hc][k-1] && baseOK[s.hc][k] {
+					if !baseOK[s.hc][prev] && baseOK[s.hc][k] {
 						successAfterFailure = true
 					}
 				}
+				prev = k
 			}
 			if shrinkAfterSuccess && successAfterFailure {
 				c.run.Nontrivial(hid)
@@ -269,8 +319,8 @@ func c12(c *ctx) {
 		cp.Remove()
 	}
 	requireCov(c, "histories_run", "histories_with_shrink_after_success", "histories_with_success_after_failure")
-	c.run.Rule = "cases: shared-prefix and all-operator grammars (captures, actions, memo revisits; a quarter generated with -noast, whose inline action trace is compared); per grammar one history of 6-40 inputs (accepted and rejected, repeated identical inputs, a long input between short ones, the empty input in the middle; in an eighth of the grammars one input of 18 000-26 000 runes, i.e. more than 65 535 tokens; in a third some steps enter through Parse(rule) of another rule) run on ONE instance with Buffer=in; Reset(); Parse(); Execute(); AST()/SprintSyntaxTree() under U in {uint16,uint32,uint64,uint} x Size in {unset,1,32768} x memo on/off, and on a fresh instance per input. " +
+	c.run.Rule = "cases: shared-prefix and all-operator grammars (captures, actions, memo revisits; a quarter generated with -noast, whose inline action trace is compared); per grammar one history of 6-40 inputs (accepted and rejected, repeated identical inputs, a long input between short ones, the empty input in the middle; in an eighth of the grammars one input of 18 000-26 000 runes, i.e. more than 65 535 tokens; in a third some steps enter through Parse(rule) of another rule) run on ONE instance with Buffer=in; Reset(); Parse(); Execute(); AST()/SprintSyntaxTree() under U in {uint8,uint16,uint32,uint64,uint} (a step whose input has more runes than U can count is left out of that history: uint8 sees inputs of up to 255 runes) x Size in {unset,1,32768} x memo on/off, and on a fresh instance per input. " +
 		"Oracle: every step equals the fresh-instance result for that input (verdict; tokens, tree, printed tree, action trace on success; error token and message on failure), fresh results are equal across U/Size and agree with the reference interpreter. " +
 		"distinct_nontrivial = distinct (grammar, history) containing at least one shorter input right after a success and one success right after a failure."
-	c.run.Assume("inputs stay below 65 535 runes so that every offset fits uint16; tokens after a failed parse are not compared")
+	c.run.Assume("an input fits U when its rune count is a value of U (255 for uint8, 65 535 for uint16); inputs stay below 65 535 runes; tokens after a failed parse are not compared")
 }
